@@ -226,11 +226,74 @@ func runC05(r *Run, replay *Case) {
 		}
 		return
 	}
-	r.Res.Rule = "component included via <template include> and via its registered shorthand tag, 1-2 times, with props a/b in every form (omitted, static, interpolated, bound string/int/list/map), " +
+	r.Res.Rule = "component included via <template include> and via its registered shorthand tag, 1-2 times (same props) and 3 times with DIFFERENT props forwarded to nested components (4 ways of writing the instances x 4 ways of forwarding x depth 2-3), with props a/b in every form (omitted, static, interpolated, bound string/int/list/map), " +
 		"front-matter colliding with props / includer variables or not, :required lists over provided, omitted, front-matter, includer and unknown names, wrapped or unwrapped component file; " +
 		"reference computed from the case; non-trivial = every case; exhaustive over the catalogue"
 	for _, cs := range cases {
 		r.Add(c05Eval(cs))
+	}
+	// the same component several times with DIFFERENT props, the component forwarding them to a nested component: every instance receives
+	// exactly its own props at every level (how the instances are written x how the props are forwarded x depth)
+	for _, how := range []string{"separate", "loop", "loop-tag", "separate-tag"} {
+		for _, fwd := range []string{"bound", "interp", "tag-bound", "vhtml"} {
+			for _, depth := range []int{2, 3} {
+				vals := []string{"one", "two", "three"}
+				var page strings.Builder
+				page.WriteString("<b>«before»</b>")
+				switch how {
+				case "separate":
+					for _, v := range vals {
+						page.WriteString(`<template include="components/Card.vuego" t="` + v + `"></template>`)
+					}
+				case "separate-tag":
+					for _, v := range vals {
+						page.WriteString(`<card t="` + v + `"></card>`)
+					}
+				case "loop":
+					page.WriteString(`<template v-for="v in vals" include="components/Card.vuego" :t="v"></template>`)
+				case "loop-tag":
+					page.WriteString(`<div v-for="v in vals"><card :t="v"></card></div>`)
+				}
+				var inner string
+				switch fwd {
+				case "bound":
+					inner = `<template include="components/Badge.vuego" :label="t"></template>`
+				case "interp":
+					inner = `<template include="components/Badge.vuego" label="{{ t }}"></template>`
+				case "tag-bound":
+					inner = `<badge :label="t"></badge>`
+				case "vhtml":
+					inner = `<template include="components/Badge.vuego" :label="t"></template><template v-html="t"></template>`
+				}
+				badge := `<i>«badge:{{ label }}»</i>`
+				if depth == 3 {
+					badge = `<template include="components/Leaf.vuego" :v="label"></template>`
+				}
+				ff := map[string]string{"p.vuego": page.String(), "components/Card.vuego": `<section>«card:{{ t }}»` + inner + `</section>`, "components/Badge.vuego": badge, "components/Leaf.vuego": `<u>«leaf:{{ v }}»</u>`}
+				d := map[string]any{"vals": []any{"one", "two", "three"}}
+				rr := renderPage(ff, "p.vuego", d, vuego.WithComponents())
+				pendingPages = append(pendingPages, pageCase("forwarding", ff, map[string]string{"card": "components/Card.vuego", "badge": "components/Badge.vuego", "leaf": "components/Leaf.vuego"}, "p.vuego", d, "forward:"+fwd))
+				var want, got []string
+				want = append(want, "before")
+				for _, v := range vals {
+					want = append(want, "card:"+v)
+					if depth == 3 {
+						want = append(want, "leaf:"+v)
+					} else {
+						want = append(want, "badge:"+v)
+					}
+				}
+				for _, m := range c05Re.FindAllStringSubmatch(rr.Out, -1) {
+					got = append(got, m[1])
+				}
+				desc := fmt.Sprintf("forward how=%s fwd=%s depth=%d", how, fwd, depth)
+				cf := &Case{Name: desc, Input: map[string]any{"desc": desc, "files": ff}, Impl: rr.canon(), Oracle: &Verdict{OK: true}, Key: desc, Tags: []string{"forwarding"}}
+				if rr.Err != "" || strings.Join(got, ",") != strings.Join(want, ",") {
+					cf.Oracle = &Verdict{OK: false, Class: "instance-props-not-own:" + how + ":" + fwd, Detail: fmt.Sprintf("%s: markers %v, expected %v (%s)", desc, got, want, rr.Err)}
+				}
+				r.Add(cf)
+			}
+		}
 	}
 	// nested includes: props do not leak across levels
 	files := map[string]string{
